@@ -31,6 +31,10 @@ C15_RULE = ("reaction lists with permuted reactants/products, repeated species, 
             "duplicate pair")
 
 NAMES = ["H", "H2", "C", "O", "CO", "e-", "H+", "OH", "H2O", "C+"]
+# spellings that denote the same species (Species.__eq__): the reference works on canonical names
+ALT = {"E": "e-"}
+canon = lambda s: ALT.get(s, s)
+respell = lambda rng, s: rng.choice([k for k, v in ALT.items() if v == s]) if s in ALT.values() and rng.random() < 0.3 else s
 
 
 def setup_species():
@@ -48,7 +52,8 @@ class RefNet:
         self.held, self.skipped, self.allowed, self.required = [], [], [], []
 
     def admits(self, r):
-        return not self.allowed or all(s in self.allowed for s in r["re"] + r["pr"])
+        allowed = {canon(x) for x in self.allowed}
+        return not self.allowed or all(canon(s) in allowed for s in r["re"] + r["pr"])
 
     def add(self, r):
         (self.held if self.admits(r) else self.skipped).append(r)
@@ -78,11 +83,11 @@ class RefNet:
             self.required = list(a)
 
     def species(self):
-        return sorted({s for r in self.held for s in r["re"] + r["pr"]} | set(self.required))
+        return sorted({canon(s) for r in self.held for s in r["re"] + r["pr"]} | {canon(s) for s in self.required})
 
     def sources_sinks(self):
-        re_ = {s for r in self.held for s in r["re"]}
-        pr_ = {s for r in self.held for s in r["pr"]}
+        re_ = {canon(s) for r in self.held for s in r["re"]}
+        pr_ = {canon(s) for r in self.held for s in r["pr"]}
         return sorted(re_ - pr_), sorted(pr_ - re_)
 
 
@@ -95,10 +100,10 @@ class Gen14:
 
     def reac(self):
         rng = self.rng
-        re_ = [rng.choice(self.names) for _ in range(rng.choice([1, 2, 2, 3]))]
-        pr_ = [rng.choice(self.names) for _ in range(rng.choice([0, 1, 1, 2, 3]))]
+        re_ = [respell(rng, rng.choice(self.names)) for _ in range(rng.choice([1, 2, 2, 3]))]
+        pr_ = [respell(rng, rng.choice(self.names)) for _ in range(rng.choice([0, 1, 1, 2, 3]))]
         tmin = rng.choice([-1.0, -1.0, 10.0])
-        key = (tuple(sorted(re_)), tuple(sorted(pr_)), tmin)
+        key = (tuple(sorted(map(canon, re_))), tuple(sorted(map(canon, pr_))), tmin)
         eqk = self.classes.setdefault(key, len(self.classes))
         self.uid += 1
         return {"uid": self.uid, "re": re_, "pr": pr_, "tmin": tmin, "eqk": eqk}
@@ -140,8 +145,8 @@ class Gen14:
             if rng.random() < 0.25:
                 return (k, [])
             # never conflict with the declared required species (the constructor refuses that combination)
-            return (k, rng.sample(self.names, rng.randint(1, len(self.names))))
-        return ("setRequired", rng.sample(self.names, rng.randint(0, 2)))
+            return (k, [respell(rng, x) for x in rng.sample(self.names, rng.randint(1, len(self.names)))])
+        return ("setRequired", [respell(rng, x) for x in rng.sample(self.names, rng.randint(0, 2))])
 
 
 def make_reaction(r):
@@ -176,7 +181,7 @@ def apply_impl(net, op, objs):
 
 def op_json(op, ids):
     k, a = op
-    enc = lambda r: [r["uid"], [ids[s] for s in r["re"]], [ids[s] for s in r["pr"]], r["eqk"]]
+    enc = lambda r: [r["uid"], [ids[canon(s)] for s in r["re"]], [ids[canon(s)] for s in r["pr"]], r["eqk"]]
     if k == "add":
         return [k, enc(a)]
     if k == "addMany":
@@ -187,7 +192,7 @@ def op_json(op, ids):
         return [k, a["eqk"]]
     if k == "removeInsts":
         return [k, [r["eqk"] for r in a]]
-    return [k, [ids[s] for s in a]]
+    return [k, [ids[canon(s)] for s in a]]
 
 
 def op_show(op):
@@ -204,8 +209,8 @@ def snapshot_impl(net, objs):
     src, snk = net.find_source_sink()
     return {"held": [objs.get(id(r), -1) for r in net.reaction_list],
             "skipped": [objs.get(id(r), -1) for r in net._skipped_reactions],
-            "species": sorted(s.name for s in net.species),
-            "sources": sorted(s.name for s in src), "sinks": sorted(s.name for s in snk)}
+            "species": sorted(canon(s.name) for s in net.species),
+            "sources": sorted(canon(s.name) for s in src), "sinks": sorted(canon(s.name) for s in snk)}
 
 
 def run_history(chk, ops_gen, hist_id):
@@ -497,9 +502,28 @@ def run_c15(argv):
     for n in range(ncases):
         lst = corpus[n] if n < len(corpus) else gen_dup_list(rng, tier)
         setup_species()
+        # the same list either as API objects or - when every type is one KIDA can express - read from a KIDA file, where a
+        # two-body line may also carry a formula id outside 1..6 (the reader warns and reads it as formula 3)
+        KF = {100: 3, 101: 1, 102: 2}
+        from_file = n >= len(corpus) and lst and all(r["type"] in KF for r in lst) and rng.random() < 0.4
+        if n == len(corpus):
+            lst = [R(["H", "CO"], ["HCO"], 100), R(["CO", "H"], ["HCO"], 100), R(["C", "O"], ["CO"], 100), R(["H", "CO"], ["HCO"], 100),
+                   R(["C", "O"], ["CO"], 100, 10.0)]
+            from_file = True
+        build = lambda: Network([Reaction(list(r["re"]), list(r["pr"]), r["tmin"], r["tmax"], 1e-10, 0.0, 0.0, RT(r["type"]), i)
+                                 for i, r in enumerate(lst)])
+        if from_file:
+            from .codec_checks import enc_kida
+            forms = [KF[r["type"]] if not (r["type"] == 100 and (rng.random() < 0.3 or (n == len(corpus) and i == 1))) else rng.choice([7, 0, 9])
+                     for i, r in enumerate(lst)]
+            kf = chk.scratch / f"dup{n}.kida"
+            kf.write_text("".join(enc_kida({"re": list(r["re"]), "pr": list(r["pr"]), "pseudo_re": [], "pseudo_pr": [], "alpha": 1e-10,
+                                            "beta": 0.0, "gamma": 0.0, "tmin": r["tmin"], "tmax": r["tmax"]}, i, f) + "\n"
+                                  for i, (r, f) in enumerate(zip(lst, forms))))
+            build = lambda: Network(filelist=[str(kf)], fileformats=["kida"])
+            chk.hist["from-kida-file"] += 1
         with silenced():
-            net = Network([Reaction(list(r["re"]), list(r["pr"]), r["tmin"], r["tmax"], 1e-10, 0.0, 0.0, RT(r["type"]), i)
-                           for i, r in enumerate(lst)])
+            net = build()
         for mode in (None, "brief", "minimal", "short"):
             with silenced():
                 dupes, dupidx, first = net.find_duplicate_reaction(mode=mode)
@@ -530,8 +554,8 @@ def run_c15(argv):
                 continue
             # removal leaves one representative per class
             with silenced():
-                net2 = Network([Reaction(list(r["re"]), list(r["pr"]), r["tmin"], r["tmax"], 1e-10, 0.0, 0.0, RT(r["type"]), i)
-                                for i, r in enumerate(lst)])
+                setup_species()
+                net2 = build()
                 net2.remove_reaction(list(dupidx))
                 again = net2.find_duplicate_reaction(mode=mode)[1]
             kept = [r.idxfromfile for r in net2.reaction_list]
